@@ -51,7 +51,15 @@ def h_anomaly(n, T, L, P, coverage):
         ax = load.modules["verif.axis"]
         inputs, clim, store, cstore = build(S, n, T, L, P, coverage)
         ctype = ["subtract", "divide"][S.choose("clim_type", 2)]
-        D = data.Data(inputs, clim=clim, clim_type=ctype)
+        kw = {}
+        if coverage:
+            # -tod / -d that keep every time: the climatology (other order, extra entries) stays aligned by coordinates
+            sel = S.choose("time-selection", 3)
+            if sel == 1:
+                kw = {"tods": [0]}
+            elif sel == 2:
+                kw = {"dates": [19700101 + i for i in range(T)] + [19700111]}
+        D = data.Data(inputs, clim=clim, clim_type=ctype, **kw)
         S.prove("climatology-is-not-a-scored-input", D.num_inputs == n and D.get_names() == [i.name for i in inputs]
                 and D.get_legend() == [i.name for i in inputs] and D.get_full_names() == [i.fullname for i in inputs]
                 and len(D.get_short_names()) == n)
@@ -85,6 +93,46 @@ def h_anomaly(n, T, L, P, coverage):
                     if nmf in ("obs", "fcst"):
                         needed = S.and_(S.not_(S.isnan(raw)), S.not_(S.isnan(x)), S.isfinite(want))
                         S.prove("only-if-defined=%s" % tag, S.implies(present, needed), twin=S.not_(present))
+    return fn
+
+
+def h_obsrange(T, P):
+    """-c / -C together with -obsrange: the range selects cases by the *measured* observation (the statement's
+    "climatology at the same coordinates" is removed afterwards); a case whose observation lies outside the range
+    is dropped for every field, and a kept case carries the anomaly."""
+    def fn(S):
+        data = load.modules["verif.data"]
+        f = load.modules["verif.field"]
+        ax = load.modules["verif.axis"]
+        inputs, clim, store, cstore = build(S, 1, T, 1, P, False)
+        ctype = ["subtract", "divide"][S.choose("clim_type", 2)]
+        lo, hi = S.real("lo"), S.real("hi")
+        S.assume(lo <= hi)
+        D = data.Data(inputs, clim=clim, clim_type=ctype, obs_range=[lo, hi])
+        first = S.choose("first-request", 2)
+        if first:
+            D.get_scores(f.Fcst(), 0, ax.No(), None)      # a request that does not involve the observations comes first
+        o, fc = D.get_scores([f.Obs(), f.Fcst()], 0, ax.All(), None)
+        S.observe("obs", o)
+        S.observe("fcst", fc)
+        for c in [(t, 0, p) for t in range(T) for p in range(P)]:
+            x = cstore["fcst"][c]
+            ro, rf = store[0]["obs"][c], store[0]["fcst"][c]
+            inside = S.and_(ro >= lo, ro <= hi)
+            for nmf, got, raw in (("obs", o[c], ro), ("fcst", fc[c], rf)):
+                want = (raw - x) if ctype == "subtract" else S.div(raw, x)
+                present = S.not_(S.isnan(got))
+                S.prove("kept-only-if-the-measured-observation-is-inside-the-range", S.implies(present, inside),
+                        twin=S.implies(present, S.not_(inside)), detail="%s/%s" % (nmf, ctype))
+                S.prove("kept-case-carries-the-anomaly", S.implies(present, S.same(got, want)),
+                        twin=S.implies(present, S.same(got, want + 1)), detail="%s/%s" % (nmf, ctype))
+            wo = (ro - x) if ctype == "subtract" else S.div(ro, x)
+            wf = (rf - x) if ctype == "subtract" else S.div(rf, x)
+            # (a case is also dropped when the climatology file's own observation is missing: allowed, DESIGN 5.3 obs. 3)
+            defined = S.and_(S.not_(S.isnan(ro)), S.not_(S.isnan(rf)), S.not_(S.isnan(x)), S.not_(S.isnan(cstore["obs"][c])),
+                             S.isfinite(wo), S.isfinite(wf))
+            S.prove("inside-and-defined-is-kept", S.implies(S.and_(inside, defined), S.not_(S.isnan(o[c]))),
+                    twin=S.implies(S.and_(inside, defined), S.isnan(o[c])), detail=ctype)
     return fn
 
 
@@ -197,6 +245,7 @@ def harnesses(tier):
         Harness("relation", h_relation(T, 1, P, thorough), "-c X  vs  X as additional input"),
         Harness("sequence", h_sequence(2, 1, 1), "whole-array request, then a score, vs a fresh dataset"),
         Harness("designated_fields", h_designated_fields(2, 1), "-c / -C together with -fcst FIELD or -obs FIELD"),
+        Harness("obsrange", h_obsrange(2, 1), "-c / -C together with -obsrange: the range applies to the measured observation"),
         Harness("driver_options", __import__("harness.c13", fromlist=["h_dispatch"]).h_dispatch(only=["-c", "-C"]),
                 "-c / -C reach Data(clim=..., clim_type=...) and nothing else (driver.run with recorders)"),
     ]
